@@ -40,8 +40,16 @@ def candidates(world, pre):
             base = {"do": "fault", "on": [n], "entry": entry, **extra}
             out.append({**base, "kind": "kraus_not_tp", "how": "scale", "seed": 3})
             out.append({**base, "kind": "kraus_not_tp", "how": "drop", "seed": 4})
+            out.append({**base, "kind": "kraus_not_tp", "how": "imag", "eps": 0.3, "single": True, "seed": 4})
+            out.append({**base, "kind": "kraus_not_tp", "how": "offdiag", "eps": 1e-2, "seed": 5})
+            out.append({**base, "kind": "kraus_not_tp", "how": "diag1", "eps": 1e-4, "seed": 6})
             out.append({**base, "kind": "kraus_wrong_shape", "delta": 1, "seed": 3})
             out.append({**base, "kind": "povm_wrong_shape", "delta": 1, "seed": 3})
+            out.append({**base, "kind": "kraus_wrong_shape", "shape": "tall", "seed": 3})
+            out.append({**base, "kind": "kraus_wrong_shape", "shape": "mixed", "seed": 3})
+            out.append({**base, "kind": "povm_wrong_shape", "shape": "tall", "seed": 3})
+            out.append({**base, "kind": "povm_wrong_shape", "shape": "wide", "seed": 3})
+            out.append({**base, "kind": "povm_wrong_shape", "shape": "mixed", "seed": 3})
             if k in ("P", "C"):
                 out.append({**base, "kind": "custom_op_wrong_shape"})
             if k in ("P", "F"):
@@ -91,6 +99,75 @@ def candidates(world, pre):
     return ok
 
 
+def _compare_step(r, pre, post, res, pre0, post0, res0, world=None, world0=None):
+    """A program step after rejected calls against the same step of the fault-free trace.
+    Returns None (equal), "stop" (the fault-free trace is no reference from here on) or a description."""
+    spec = (res.info or {}).get("spec") or {}
+    if r["do"] in ("measure", "povm") and res.status == "ok" and res0.status == "ok" and world is not None:
+        if runner.ret_digest(world, res.ret) != runner.ret_digest(world0, res0.ret):
+            # a rejected call may legitimately have changed the tensor order of a product space, and
+            # with it the order in which the members are drawn; the forced outcomes are keyed by draw
+            # position, so the two executions may take different (equally legitimate) branches. The
+            # states were equal before this step: judge the step by itself, then stop comparing
+            vs = oracles.check_step(world, pre, post, r, res)
+            if vs:
+                return f"outcomes differ from the fault-free trace and the step is wrong by itself: {vs[0].failure}: {vs[0].detail[:120]}"
+            return "stop"
+    if r["do"] == "op" and (spec.get("t") in ("F.Displace", "F.Squeeze") or spec.get("form") in ("rot", "bs")):
+        # the truncated form of these operators depends on the cut-off the library chooses, which
+        # depends on the representation level a rejected call may legitimately have changed
+        # (known finding KF-C10-estimator-accuracy)
+        return "stop"
+    if "skipped" in (res.status, res0.status) and res.status != res0.status:
+        # applicability of expand/contract style requests depends on the representation level
+        return twins.snapshot_diff(post0, post)
+    if res.status != res0.status:
+        return f"status {res0.status}/{res0.exc} -> {res.status}/{res.exc}"
+    if r["do"] == "povm" and world is not None:
+        # whether the envelope partner of a POVM target survives depends on whether the envelope is
+        # combined (not pinned by the statements, 11.5), which a rejected call may have changed
+        live = lambda snap: {n for n, m in snap.sub.items() if not m["measured"]}
+        partners = {world.partner(n) for n in r.get("on", [])} - {None}
+        d = live(post) ^ live(post0)
+        if d and d <= partners:
+            return "stop"
+    if r["do"] in ("kraus", "povm") and [pre.sub[n]["dims"] for n in r["on"]] != [pre0.sub[n]["dims"] for n in r["on"]]:
+        return "stop"  # the operator set is resolved at the current cut-off: different channel
+    return twins.snapshot_diff(post0, post)
+
+
+def continuation_violations(cfg, recipes):
+    """Replay form of the continuation check: the recorded list holds program steps and injected
+    rejected calls (sid >= 10**6); the program steps must behave as they do without the injections."""
+    inj = lambda r: r["do"] == "fault" and r.get("sid", 0) >= 10**6
+    prog = [r for r in recipes if not inj(r)]
+    if len(prog) == len(recipes) or not prog:
+        return []
+    base = runner.execute_run(dict(cfg), recipes=copy.deepcopy(prog), keep_snapshots=True, stop_on_taint=False)
+    full = runner.execute_run(dict(cfg), recipes=copy.deepcopy(recipes), keep_snapshots=True, stop_on_taint=False)
+    ib = {r["sid"]: k for k, r in enumerate(base.recipes)}
+    ninj = 0
+    for k, r in enumerate(full.recipes):
+        if k >= len(full.snapshots):
+            break
+        if inj(r):
+            ninj += 1
+            continue
+        if r["sid"] not in ib or ib[r["sid"]] >= len(base.snapshots):
+            break
+        pre, post, res = full.snapshots[k]
+        pre0, post0, res0 = base.snapshots[ib[r["sid"]]]
+        bad = _compare_step(r, pre, post, res, pre0, post0, res0, full.world, base.world)
+        if bad == "stop":
+            break
+        if bad is not None:
+            cell = oracles.make_cell(full.world, pre, r, res.addressed)
+            v = Violation(["C17"], "continuation", "continuation-diverged", cell, f"after {ninj} rejected calls, step (sid {r['sid']}): {bad}")
+            v.sid = r["sid"]
+            return [v.to_json()]
+    return []
+
+
 def _inject_run(cfg, recipes, base, rr_out, limit_per_pos=80, only=None):
     """Re-execute `recipes`, injecting faults before every step. Returns violations (json)."""
     seed = int(cfg.get("seed", 0))
@@ -103,8 +180,14 @@ def _inject_run(cfg, recipes, base, rr_out, limit_per_pos=80, only=None):
     viols = []
     injections = 0
     fsid = 10**6
+    executed = []  # everything that ran so far: a rejected call may change representation levels
     for j, r in enumerate(recipes):
-        cands = candidates(world, pre)[:limit_per_pos]
+        cands = candidates(world, pre)
+        if len(cands) > limit_per_pos:
+            # bounded work per position: a window that moves with the position, so that every
+            # candidate is reached at some position of a long enough program
+            k0 = (j * limit_per_pos) % len(cands)
+            cands = (cands + cands)[k0 : k0 + limit_per_pos]
         for f in cands:
             fsid += 1
             f = dict(f)
@@ -131,9 +214,10 @@ def _inject_run(cfg, recipes, base, rr_out, limit_per_pos=80, only=None):
                     if "C17" not in v.props:
                         v.props.append("C17")
                     vj = v.to_json()
-                    vj["enum_replay"] = [copy.deepcopy(x) for x in recipes[:j]] + [f]
+                    vj["enum_replay"] = copy.deepcopy(executed) + [f]
                     viols.append(vj)
                 return viols, injections
+            executed.append(f)
             pre = post
         # the program's own step
         ctx["sid"], ctx["nondeg"] = r["sid"], 0
@@ -142,40 +226,24 @@ def _inject_run(cfg, recipes, base, rr_out, limit_per_pos=80, only=None):
         res.draws = seams.take_draws()
         post = alpha.snapshot(world)
         pre0, post0, res0 = base.snapshots[j]
-        bad = None
-        spec = (res.info or {}).get("spec") or {}
-        if r["do"] == "op" and (spec.get("t") in ("F.Displace", "F.Squeeze") or spec.get("form") in ("rot", "bs")):
-            # the truncated form of these operators depends on the cut-off the library chooses, which
-            # depends on the representation level a rejected call may legitimately have changed
-            # (known finding KF-C10-estimator-accuracy): the fault-free trace is no reference from here on
+        bad = _compare_step(r, pre, post, res, pre0, post0, res0, world, base.world)
+        if bad == "stop":
             return viols, injections
-        if "skipped" in (res.status, res0.status) and res.status != res0.status:
-            # applicability of expand/contract style requests depends on the representation level
-            d = twins.snapshot_diff(post0, post)
-            if d is not None:
-                bad = d
-        elif res.status != res0.status:
-            bad = f"status {res0.status}/{res0.exc} -> {res.status}/{res.exc}"
-        elif r["do"] in ("kraus", "povm") and [pre.sub[n]["dims"] for n in r["on"]] != [pre0.sub[n]["dims"] for n in r["on"]]:
-            return viols, injections  # the operator set is resolved at the current cut-off: different channel
-        else:
-            d = twins.snapshot_diff(post0, post)
-            if d is not None:
-                bad = d
         if bad is not None:
             cell = oracles.make_cell(world, pre, r, res.addressed)
             v = Violation(["C17"], "continuation", "continuation-diverged", cell, f"after {injections} rejected calls, step {j} (sid {r['sid']}): {bad}")
             v.sid = r["sid"]
             vj = v.to_json()
-            vj["enum_replay"] = copy.deepcopy(recipes[: j + 1])
+            vj["enum_replay"] = copy.deepcopy(executed) + [copy.deepcopy(r)]
             viols.append(vj)
             return viols, injections
+        executed.append(r)
         pre = post
     return viols, injections
 
 
 def run_program(seed, tier):
-    g = gen.Gen(seed, "C17", tier="quick", overrides={"fault_rate": 0.0})
+    g = gen.Gen(seed, "C17", tier="quick", overrides={"fault_rate": 0.0, "wide_rate": 0.0})
     g.fault_rate = 0.0
     g.max_steps = min(g.max_steps, 16 + len(g.queue))
     cfg = {"seed": seed, "contraction": g.contraction, "ops": g.ops, "mode": "forced", "lib_seed": seed % 1000 + 1}
